@@ -1,11 +1,12 @@
 # C10 — Forwarded bursts: bits and metadata  (fake_trx world property; shared machinery in lib/worldcheck.py)
 from lib import vf, worldcheck as wc
+from props import trxcon_part
 
 ID = "C10"
 LEVEL = "proof"
-LEAN_MODULES = ["OsmoVerif.Props.C10"]
-LEAN_MODEL_MODULES = wc.LEAN_MODEL_MODULES
-DRIVER_MODULES = wc.DRIVER_MODULES
+LEAN_MODULES = ["OsmoVerif.Props.C10"] + (["OsmoVerif.Props.Trxcon"] if ID == "C05" else [])
+LEAN_MODEL_MODULES = wc.LEAN_MODEL_MODULES + (trxcon_part.LEAN_MODEL_MODULES if ID == "C05" else [])
+DRIVER_MODULES = wc.DRIVER_MODULES + (["TrxconIf"] if ID == "C05" else [])
 ASSUMPTIONS = wc.ASSUMPTIONS + []
 MANIFEST = {
     "text": "Lean theorems on handleDataMsg: soft bits 127/-127 per hard bit, FN/TN preserved, recipient's header version with legacy padding on v0, RSSI formula or FAKE_RSSI window, ToA256 window minus 256*TA, C/I window, modulation by burst length, TSC detection on NB/SB/AB layouts over the regenerated training-sequence table; correspondence of every emitted datagram; oracle parses the delivered datagrams per the TRXD layout and checks them against the reference windows",
@@ -19,10 +20,14 @@ ORACLE_PROFILES = ['radio', 'traffic', 'mixed']
 
 def gen(run):
     wc.gen(run)
+    if ID == "C05":
+        trxcon_part.gen(run)
 
 
 def correspond(run, corr):
     wc.correspond(run, corr, CORR_PROFILES, 10000, 150000)
+    if ID == "C05":
+        trxcon_part.correspond(run, corr, parts=("cmd", "rsp"))
 
 
 def search(run, corr, deep):
@@ -30,8 +35,23 @@ def search(run, corr, deep):
     if ID == "C03":
         # thread schedules: one socket-thread operation racing one tick at every atomic-action boundary
         found += wc.sched_oracle(run, corr, deep)
+    if ID == "C05":
+        # trxcon side: real trx_if.c command emission / response parser, and the cross run with the real toolkit
+        found += trxcon_part.oracle(run, corr, deep, parts=("cmd", "rsp"))
+        found += wc.c05_cross(run, corr, deep)
     return found
 
 
 def replay(run, path):
-    return wc.replay(run, path, ID)
+    import json
+    rp = json.load(open(path))
+    tc = [v["witness"] for v in rp.get("violations", []) if str((v.get("witness") or {}).get("kind", "")).startswith("trxcon-")]
+    bad = 0
+    for w in tc:
+        still, text = trxcon_part.replay(run, w)
+        print(text)
+        bad += bool(still)
+    rc = wc.replay(run, path, ID)
+    if bad:
+        print("VIOLATION property=%s replay=%s" % (ID, path))
+    return 1 if (bad or rc) else 0
